@@ -740,6 +740,8 @@ class Interp:
             self.exec_block(st.orelse, fr)
             return
         self.assign(st.target, nxt, fr)
+        if spec.assume_each is not None:
+            ctx.assume(spec.assume_each(self.clause_env(fr, {'i': i, 'seq': src.term, 'elem': nxt})))
         try:
             self.exec_block(st.body, fr)
         except BreakSig:
